@@ -87,6 +87,44 @@ def _check(ctx, prog):
                     entries[l] = tgt
     ctx.ob("arms", "floor:handler::Event arms", len(entries) >= 14, nontrivial=False, msg=str(sorted(entries)))
     IN = "libp2p_relay::behaviour::handler::In"
+    # ---- private methods by role
+    TRK = "libp2p_relay::behaviour::CircuitsTracker::"
+
+    def trk_in_arm(arm, pick=None):
+        t_ = entries.get(arm)
+        if t_ is None:
+            raise mir.RuleError("arm %s not found" % arm)
+        # only the arm's own blocks: stop at blocks reachable from another arm's entry
+        own = h.reachable([t_])
+        cs = {cb.npath: cb for s_, cb in P.crate_callees(prog, h, own) if cb.npath.startswith(TRK) and (pick is None or pick(s_, cb))}
+        if len(cs) != 1:
+            raise mir.RuleError("arm %s: tracker method not identified among %s" % (arm, sorted(cs)))
+        return next(iter(cs.values()))
+    T_INSERT = trk_in_arm("CircuitReqReceived", lambda s_, cb: any(x[0] == "agg" and x[1] == "adt" and strip_generics(x[2]) == "libp2p_relay::behaviour::Circuit" for x in h.site_expr(s_)[2][1:]))
+    T_REMOVE = trk_in_arm("CircuitClosed")
+    T_ACCEPTED = trk_in_arm("CircuitReqAccepted")
+    T_LEN = T_NUM = None
+    for bi in sorted(h.live):
+        info = h.switch_info(bi)
+        c_ = P.cmpnf(info[0]) if info else None
+        if not c_:
+            continue
+        for a_, b_ in ((c_[1], c_[2]), (c_[2], c_[1])):
+            if a_[0] == "call" and strip_generics(a_[1]).startswith(TRK):
+                if N.r(b_) == CFG + ".max_circuits":
+                    T_LEN = strip_generics(a_[1])
+                elif N.r(b_) == CFG + ".max_circuits_per_peer":
+                    T_NUM = strip_generics(a_[1])
+    if not T_LEN or not T_NUM:
+        raise mir.RuleError("circuit counters compared with max_circuits / max_circuits_per_peer not identified (%s, %s)" % (T_LEN, T_NUM))
+    osw = ctx.body(RL, r"<behaviour::Behaviour as libp2p_swarm::NetworkBehaviour>::on_swarm_event$")
+    is_ev = (lambda e: e[0] == "arg" and e[1] == 2)
+    cc = ctx.use(P.fn_in_arm(prog, osw, is_ev, "ConnectionClosed", lambda cb: cb.names.get(1) == "self" and "::Behaviour::" in cb.npath))
+    ce = ctx.use(P.fn_in_arm(prog, osw, is_ev, "ConnectionEstablished", lambda cb: cb.names.get(1) == "self" and "::Behaviour::" in cb.npath))
+    rbcs = {cb.npath: cb for _, cb in P.crate_callees(prog, cc) if cb.npath.startswith(TRK)}
+    if len(rbcs) != 1:
+        raise mir.RuleError("on connection close: tracker method not identified among %s" % sorted(rbcs))
+    rbf = ctx.use(next(iter(rbcs.values())))
 
     def in_sites(variant, region):
         return [s for s in h.agg_sites(r"^libp2p_relay::behaviour::handler::In$", variant) if s.bb in region]
@@ -140,6 +178,7 @@ def _check(ctx, prog):
         ctx.ob("reservation", "new reservation only below max_reservations_per_peer", ok, s.loc(), msg)
     # counter definitions
     seen_cnt = set()
+    PRED = {}
     for bi in sorted(h.live):
         info = h.switch_info(bi)
         c = P.cmpnf(info[0]) if info else None
@@ -162,13 +201,24 @@ def _check(ctx, prog):
                 ok = txt == "<std::iter::Filter as std::iter::Iterator>::count(std::iter::Iterator::filter(std::collections::HashMap::values($2), closure[]))"
                 inner = P.closures_in(prog, cl, rs[0][1]) if ok else []
                 ir = [P.Norm(ic).r(x) for _, ic in inner[:1] for _, x in P.ret_exprs(ic)]
-                ok = ok and ir == ["libp2p_relay::behaviour::Reservation::is_active($2)"]
+                pcal = [cb_ for _, ic in inner[:1] for _, cb_ in P.crate_callees(prog, ic)]
+                ok = ok and len(pcal) == 1 and ir == [pcal[0].npath + "($2)"] and "behaviour::Reservation::" in pcal[0].npath
+                if ok:
+                    PRED[pcal[0].npath] = pcal[0]
                 txt += " / " + str(ir)
             ctx.ob("counter", "%s reservation count = number of active entries" % which, ok, "%s:%d" % (h.file, h.blocks[bi]["term"].get("l", 0)), txt[:220])
     ctx.ob("counter", "floor:reservation counters", seen_cnt == {"per-peer", "total"}, nontrivial=False, msg=str(sorted(seen_cnt)))
-    ia = ctx.body(RL, r"^libp2p_relay::behaviour::Reservation::is_active$")
-    r = [P.Norm(ia).r(x) for _, x in P.ret_exprs(ia)]
-    ctx.ob("counter", "is_active <=> Active", r in (["Eq(%s, self)" % ACTIVE], ["Eq(self, %s)" % ACTIVE]) or (len(r) == 1 and r[0].startswith("Eq(") and ACTIVE in r[0] and "self" in r[0]), "%s:%d" % (ia.file, ia.line), str(r))
+    ctx.ob("counter", "floor:one predicate counts active reservations", len(PRED) == 1, nontrivial=False, msg=str(sorted(PRED)))
+    for ia in PRED.values():
+        ctx.use(ia)
+        rs_ = P.ret_exprs(ia)
+        r = [P.Norm(ia).r(x) for _, x in rs_]
+        ok = len(r) == 1 and r[0].startswith("Eq(") and ACTIVE in r[0] and "self" in r[0]
+        if not ok and rs_ and all(P.const_val(x) is not None for _, x in rs_):
+            # matches!(self, Reservation::Active): true exactly on the Active edge
+            vs = lib.matches_variants(ia)
+            ok = vs == {"Active"}
+        ctx.ob("counter", "is_active <=> Active", ok, "%s:%d" % (ia.file, ia.line), str(r))
     if ent is not None:
         region = h.reachable([ent])
         acc, den = in_sites("AcceptReservationReq", region), in_sites("DenyReservationReq", region)
@@ -183,7 +233,7 @@ def _check(ctx, prog):
             got = lib.count_range(h, [ent], [s.bb], lib.bbs(adm))
             ctx.ob("reservation", "deny => not recorded", got == (0, 0), s.loc(), "stores on paths to In::DenyReservationReq: %s" % (got,))
     # ================================================================= circuits
-    ins = prog.callers(RL, r"^libp2p_relay::behaviour::CircuitsTracker::insert$")
+    ins = prog.callers(RL, "^" + re.escape(T_INSERT.npath) + "$")
     ctx.floor("circuit", "CircuitsTracker::insert call sites", ins, 1)
     ctx.ob("circuit", "circuits are created only when a circuit request is admitted", all(s.body is h and arm_of(h, entries, s.bb) == ["CircuitReqReceived"] for s in ins),
            msg=str([(s.body.short, arm_of(h, entries, s.bb) if s.body is h else None) for s in ins]))
@@ -203,10 +253,10 @@ def _check(ctx, prog):
         ctx.ob("circuit", "the tracked circuit names the requester and its connection", len(srcp) == 1 and len(srcc) == 1 and len(peer_fields) == 2 and len(conn_fields) == 2, s.loc(), str(vals)[:200])
         if len(srcp) == 1 and len(srcc) == 1 and len(peer_fields) == 2 and len(conn_fields) == 2:
             ROLE = {"srcp": srcp[0], "srcc": srcc[0], "dstp": [k for k in peer_fields if k != srcp[0]][0], "dstc": [k for k in conn_fields if k != srcc[0]][0]}
-        limit_ob("circuit", "total below max_circuits", s, "libp2p_relay::behaviour::CircuitsTracker::len(%s)" % CIRC, CFG + ".max_circuits", "circuits.len() < max_circuits", start=cent or 0)
+        limit_ob("circuit", "total below max_circuits", s, "%s(%s)" % (T_LEN, CIRC), CFG + ".max_circuits", "circuits.len() < max_circuits", start=cent or 0)
         for k in peer_fields:
             role = "requester" if vals.get(k) == "$2" else "destination"
-            limit_ob("circuit", "%s below max_circuits_per_peer" % role, s, "libp2p_relay::behaviour::CircuitsTracker::num_circuits_of_peer(%s, %s)" % (CIRC, vals.get(k)), CFG + ".max_circuits_per_peer",
+            limit_ob("circuit", "%s below max_circuits_per_peer" % role, s, "%s(%s, %s)" % (T_NUM, CIRC, vals.get(k)), CFG + ".max_circuits_per_peer",
                      "num_circuits_of_peer(%s) < max_circuits_per_peer (the counter counts both roles, so both ends must be below the limit)" % str(vals.get(k))[-60:], start=cent or 0)
     if cent is not None:
         region = h.reachable([cent])
@@ -224,10 +274,10 @@ def _check(ctx, prog):
             got = lib.count_range(h, [cent], [s.bb], mine)
             ctx.ob("circuit", "deny => not tracked", got == (0, 0), s.loc(), "inserts on paths to In::DenyCircuitReq: %s" % (got,))
     # ---- tracker definitions
-    tl = ctx.body(RL, r"^libp2p_relay::behaviour::CircuitsTracker::len$")
+    tl = ctx.body(RL, "^" + re.escape(T_LEN) + "$")
     r = [P.Norm(tl).r(x) for _, x in P.ret_exprs(tl)]
     ctx.ob("counter", "CircuitsTracker::len = circuits.len()", r == ["std::collections::HashMap::len(self.%s)" % T_MAP], "%s:%d" % (tl.file, tl.line), str(r))
-    nc = ctx.body(RL, r"^libp2p_relay::behaviour::CircuitsTracker::num_circuits_of_peer$")
+    nc = ctx.body(RL, "^" + re.escape(T_NUM) + "$")
     rs = P.ret_exprs(nc)
     ok = len(rs) == 1 and P.Norm(nc).r(rs[0][1]) == "<std::iter::Filter as std::iter::Iterator>::count(std::iter::Iterator::filter(std::collections::HashMap::iter(self.%s), closure[$2]))" % T_MAP
     leaves = []
@@ -251,7 +301,7 @@ def _check(ctx, prog):
                 te = P.rel_edges(cl, lambda op, a_, b_: op == "Eq")
                 ok = ok and P.must_pass(cl, s_.bb, te)
     ctx.ob("counter", "num_circuits_of_peer counts both roles", bool(ok), "%s:%d" % (nc.file, nc.line), str(leaves)[:260])
-    ti = ctx.body(RL, r"^libp2p_relay::behaviour::CircuitsTracker::insert$")
+    ti = ctx.use(T_INSERT)
     TI = P.Norm(ti)
     wr = ti.field_write_sites(T_NEXT)
     mins = [s for s in ti.call_sites(r"HashMap::insert$") if TI.r(ti.site_expr(s)[2][0]) == "self." + T_MAP]
@@ -274,12 +324,12 @@ def _check(ctx, prog):
         for s in lib.field_mut_calls(b, T_MAP):
             wh.add(b.npath)
     ctx.ob("counter", "the circuit map is mutated only by insert / accepted / remove / remove_by_connection",
-           wh <= {"libp2p_relay::behaviour::CircuitsTracker::" + n for n in ("insert", "accepted", "remove", "remove_by_connection")} and len(wh) >= 3, msg=str(sorted(wh)))
+           wh <= {T_INSERT.npath, T_ACCEPTED.npath, T_REMOVE.npath, rbf.npath} and len(wh) >= 3, msg=str(sorted(wh)))
     add = ctx.body(RL, r"^libp2p_relay::<behaviour::CircuitId as std::ops::Add>::add$")
     r = [P.Norm(add).r(x) for _, x in P.ret_exprs(add)]
     ctx.ob("counter", "CircuitId + n adds to the inner counter", r == ["libp2p_relay::behaviour::CircuitId::CircuitId{0: AddWithOverflow(self.0, $2).0}"], "%s:%d" % (add.file, add.line), str(r))
     # ================================================================= un-tracking only at the end of life
-    rm = prog.callers(RL, r"^libp2p_relay::behaviour::CircuitsTracker::remove$")
+    rm = prog.callers(RL, "^" + re.escape(T_REMOVE.npath) + "$")
     ctx.floor("untrack", "CircuitsTracker::remove call sites", rm, 4)
     allowed = {"CircuitReqDenied", "CircuitReqDenyFailed", "CircuitReqAcceptFailed", "CircuitClosed"}
     for s in rm:
@@ -305,16 +355,14 @@ def _check(ctx, prog):
         den = in_sites("DenyCircuitReq", h.reachable([t]))
         ok = len(den) == 1 and N.r(dict(h.site_expr(den[0])[4]).get("circuit_id", ("unknown", "?"))) == "std::option::Option::Some{0: $4@Left@OutboundConnectNegotiationFailed.circuit_id}"
         ctx.ob("untrack", "a failed outbound negotiation hands the tracked id back for removal", ok, den[0].loc() if den else "", N.r(h.site_expr(den[0]))[:160] if den else "")
-    rbc = prog.callers(RL, r"^libp2p_relay::behaviour::CircuitsTracker::remove_by_connection$")
-    cc = ctx.body(RL, r"^libp2p_relay::behaviour::Behaviour::on_connection_closed$")
+    rbc = prog.callers(RL, "^" + re.escape(rbf.npath) + "$")
     CC = P.Norm(cc)
     ctx.ob("untrack", "remove_by_connection is used only on connection close", len(rbc) == 1 and rbc[0].body is cc and
-           CC.site(rbc[0]) == "libp2p_relay::behaviour::CircuitsTracker::remove_by_connection(%s, $2.peer_id, $2.connection_id)" % CIRC, rbc[0].loc() if rbc else "", CC.site(rbc[0]) if rbc else "")
+           CC.site(rbc[0]) == "%s(%s, $2.peer_id, $2.connection_id)" % (rbf.npath, CIRC), rbc[0].loc() if rbc else "", CC.site(rbc[0]) if rbc else "")
     if rbc:
         got = lib.count_range(cc, [0], cc.return_blocks(), [rbc[0].bb])
         ctx.ob("untrack", "a closed connection's circuits are removed on every path", got == (1, 1), rbc[0].loc(), str(got))
     # remove_by_connection(self, peer_id = $2, connection_id = $3): retain closure keeps a circuit only if neither (peer, connection) pair matches
-    rbf = ctx.body(RL, r"^libp2p_relay::behaviour::CircuitsTracker::remove_by_connection$")
     rt = [s for s in rbf.call_sites(r"HashMap::retain$") if P.Norm(rbf).r(rbf.site_expr(s)[2][0]) == "self." + T_MAP]
     ok = False
     detail = ""
@@ -383,7 +431,6 @@ def _check(ctx, prog):
     occ = P.variant_edges(cc, lambda y: CC.r(y) == "std::collections::HashMap::entry(%s, $2.peer_id)" % CONN, {"Occupied"})
     got = lib.count_range(cc, P.targets(occ), cc.return_blocks(), lib.bbs(inner_removes(cc, "$2.connection_id"))) if occ else None
     ctx.ob("untrack", "a closed connection's reservation is removed on every path", got == (1, 1), "%s:%d" % (cc.file, cc.line), "connections[peer].remove(connection_id): %s" % (got,))
-    ce = ctx.body(RL, r"^libp2p_relay::behaviour::Behaviour::on_connection_established$")
     r = [P.Norm(ce).site(s) for s in ce.call_sites(r"HashMap::insert$")]
     ctx.ob("reservation", "a new connection starts without a reservation", r == ["std::collections::HashMap::insert(std::collections::hash_map::Entry::or_default(std::collections::HashMap::entry(%s, $2.peer_id)), $2.connection_id, %s)" % (CONN, NONE_)],
            "%s:%d" % (ce.file, ce.line), str(r)[:200])
